@@ -4,16 +4,18 @@ from vlib import run_pair
 PID = "C14"
 MODEL_VOS = ["model/Sizes.vo"]
 ASSUMPTIONS = [
+    "whole-session traffic: driver e2e (-prop C14) runs real client and server Muxes over simnet UDP/TCP under virtual time for MTU x padding x low-entropy mode x write sizes and measures every emitted datagram against the sender's MTU and every decoded length field against its limit (oracle only; decoded by the independent refcodec)",
     "MTU within the range both config validators accept (recovered behaviourally: 1280..1500); outside it the bound is false (C14_mtu_needs_validated_range) and maxFragmentSize can be 0 (division by zero in writeChunk) - not claimed",
     "Go int modelled as unbounded Z (all quantities < 2^32); uint8/uint16 conversions are explicit mod and proved not to wrap in range",
     "padding draws are oracle inputs constrained only by the maxima the code computes; the driver reads the actual draws off the wire and checks them against those maxima",
-    "the datagram layout formula (dgram_len) is tied to PacketUnderlay.writeOneSegment by serialising real segments over a recording connection; control segments and acks are built by the hook the way session.go builds them (no payload); whole-session traffic (simnet) is not part of this driver",
+    "the datagram layout formula (dgram_len) is tied to PacketUnderlay.writeOneSegment by serialising real segments over a recording connection; control segments and acks are built by the hook the way session.go builds them (no payload); whole-session traffic is measured by the second driver (e2e)",
     "stream transport: fields and fragmenting plan only (a stream segment is not a datagram)",
 ]
 
 
 def run(ctx):
-    return [run_pair(ctx, "c14", PID, MODEL_VOS)]
+    return [run_pair(ctx, "c14", PID, MODEL_VOS),
+            run_pair(ctx, "e2e", PID, None, faketime=True, extra_args=["-prop", "C14"], subdir="e2e")]
 
 
 def search(ctx):
